@@ -406,7 +406,9 @@ def tie_tgen(ctx, tier=None, seed=None):
     tier = tier or ctx.tier
     seed = ctx.seed if seed is None else seed
     try:
-        r = summary(tier, seed)
+        from checks import suites as _suites
+        with _suites.workspace_lock("tgen"):
+            r = summary(tier, seed)
     except Exception as e:
         ctx.ties[TIE] = {"cases": 0, "agree": 0, "observables": ["(not run)"]}
         ctx.tie_broken(TIE, {"error": str(e)[-2000:]})
